@@ -408,16 +408,33 @@ def big_state(a, rows, seed):
     return State(tuple(a), getattr(a, "kw", {}))
 
 
-def run_sqlite(chk: Check, s1, s2, label="short-history", earlier=()):
-    """`earlier`: complete checkpoints written into the folder BEFORE the previous one (the file has a history of its own: free pages, a larger size)"""
+def committed_sqlite_module():
+    """the SQLite back-end as COMMITTED in /repo (HEAD), loaded from its source text under another name: the writer of "a database file an earlier version of
+    the library left in the folder".  On the unchanged tree it is the same code as the one under test.  None when it cannot be obtained."""
+    import types
+    try:
+        src = subprocess.run(["git", "-C", "/repo", "show", "HEAD:black_it/utils/sqlite3_checkpointing.py"], capture_output=True, text=True, timeout=60).stdout
+        if "def save_calibrator_state" not in src:
+            return None
+        mod = types.ModuleType("vp_committed_sqlite3_checkpointing")
+        exec(compile(src, "<HEAD:black_it/utils/sqlite3_checkpointing.py>", "exec"), mod.__dict__)
+        return mod
+    except Exception:  # noqa: BLE001
+        return None
+
+
+def run_sqlite(chk: Check, s1, s2, label="short-history", earlier=(), prev_writer=None):
+    """`earlier`: complete checkpoints written into the folder BEFORE the previous one (the file has a history of its own: free pages, a larger size);
+    `prev_writer`: the module whose save wrote the previous checkpoint (default: the code under test itself)"""
     import sqlite3
     from black_it.utils import sqlite3_checkpointing as sq
+    pw = prev_writer or sq
 
     def prepare(folder, have_prev):
         if have_prev:
             for st in earlier:
-                sq.save_calibrator_state(folder, *sqlite_args(st))
-            sq.save_calibrator_state(folder, *sqlite_args(s1))
+                pw.save_calibrator_state(folder, *sqlite_args(st))
+            pw.save_calibrator_state(folder, *sqlite_args(s1))
 
     def load(folder):
         try:
@@ -426,7 +443,7 @@ def run_sqlite(chk: Check, s1, s2, label="short-history", earlier=()):
             return "error:" + type(e).__name__
 
     for have_prev in (True, False):
-        if earlier and not have_prev:
+        if (earlier or prev_writer is not None) and not have_prev:
             continue
         ref = tempfile.mkdtemp(prefix="vpc06q")
         prepare(ref, have_prev)
@@ -646,6 +663,12 @@ def run(chk: Check):
     run_sqlite(chk, big_state(s1, 1500, 11), big_state(s2, 1700, 12), label="long-history")
     # the previous checkpoint is a short one written over a much larger one (a long calibration, then a fresh short one in the same file): megabytes of free pages
     run_sqlite(chk, s1, s2, label="short-history-after-a-much-larger-checkpoint", earlier=[big_state(s1, 2800, 31)])
+    # the previous checkpoint was written by the library as committed (an earlier version, from the point of view of a changed tree): a failed save by the code
+    # under test still leaves it loadable, by the code under test
+    cm = committed_sqlite_module()
+    if cm is not None:
+        run_sqlite(chk, s1, s2, label="short-history-previous-checkpoint-written-by-the-committed-version", prev_writer=cm)
+        chk.count("sqlite:previous_checkpoint_written_by_committed_version")
     # ... and the process dying (not an exception) during the SQLite save, at the system calls on the database and its journal
     run_sqlite_kills(chk, s1, s2, "short-history", max_kills=40 if chk.tier == "quick" else 400)
     run_sqlite_kills(chk, big_state(s1, 300, 21), big_state(s2, 340, 22), "long-history", max_kills=40 if chk.tier == "quick" else 600)
